@@ -413,30 +413,36 @@ def merge (old : Resv) (rq : Rq) : Resv :=
     rankAdj := match rq.rankAdj with | .val r => some r | _ => old.rankAdj,
     maxUtil := match rq.maxUtil with | .val r => some r | _ => old.maxUtil }
 
-/-- `rsrc['partition']` in `update`: no default, KeyError (`none`) when the member is missing. -/
-def updatePart (rq : Rq) : Option (Option Name) :=
-  match rq.part with
-  | .val p => some (some p)
-  | .absent => none
-  | _ => some none
+/-- What `_check_capacity` sees of the merged dict `cell_alloc` (the stored reservation updated
+    with the request): members missing from the request keep their stored values; a `null`
+    partition in the request stays `None` in the dict. -/
+def mergedCReq (old : Resv) (rq : Rq) : CReq :=
+  { cpu := some (merge old rq).cpu, disk := some (merge old rq).disk, mem := some (merge old rq).mem,
+    part := some (match rq.part with
+      | .val p => some p
+      | .null => none
+      | _ => some old.part),
+    traits := some (merge old rq).traits }
 
 /-- the store after `admin_cell_alloc.update([cell, allocation], cell_alloc)` -/
 def repl (store : List Resv) (id : Name × Name) (m : Resv) : List Resv :=
   store.map (fun r => if r.id = id then m else r)
 
-/-- `_ReservationAPI.update(rsrc_id, rsrc)`; returns the new store. -/
+/-- `_ReservationAPI.update(rsrc_id, rsrc)`; returns the new store.  The stored reservation is
+    fetched first (a missing id fails there), the request is merged into it, and the capacity
+    check runs on the merged reservation — the one that will be stored. -/
 def update (parts : List Part) (store : List Resv) (rid : List Char) (rq : Rq) :
     Except Err (List Resv) :=
   if !schemaOK updateRequired rq then .error .schema else
   match splitId rid with
   | none => .error .badId
   | some (alloc, cell) =>
-    match checkCapacity parts store cell alloc (rq.toCReq (updatePart rq)) with
-    | .error e => .error e
-    | .ok () =>
-      match findResv store (alloc, cell) with
-      | none => .error .notFound
-      | some old => .ok (repl store (alloc, cell) (merge old rq))
+    match findResv store (alloc, cell) with
+    | none => .error .notFound
+    | some old =>
+      match checkCapacity parts store cell alloc (mergedCReq old rq) with
+      | .error e => .error e
+      | .ok () => .ok (repl store (alloc, cell) (merge old rq))
 
 inductive Verb | create | update
   deriving DecidableEq, Repr
